@@ -253,6 +253,11 @@ class Kernel:
                 flt_s = le_s[1] if le_s is not None else TRUE
                 if le_b is not None and le_b[0] == base_s and flt_s == TRUE:
                     return self.kfold(body)
+        if t[0] == "ite" and len(t) == 4 and ("list", ()) not in (t[2], t[3]):
+            # the same fold computed on two paths (in two call contexts): it is that fold
+            ka, kb = self.kfold(t[2]), self.kfold(t[3])
+            if ka is not None and kb is not None and ka.kind == kb.kind and ka.text() == kb.text():
+                return ka
         if t[0] == "attr" and t[1][0] == "res" and t[1][1] in self.sx.loops:
             # a field of the successor *object* that a search loop selected: `followed = <arg-max successor>; followed.F`
             ko = self.kfold(t[1])
